@@ -600,9 +600,30 @@ func Triple(sys semver.System, g *rapid.Generator[string]) *rapid.Generator[[3]s
 			}
 			prefix := strings.TrimRight(a[:end], ".")
 			if prefix != "" {
-				endings := []string{"", "", "-rc1", ".rc1", "-SP1", ".SP1", "-sp", ".sp", "-SNAPSHOT", ".SNAPSHOT", "-beta2", ".beta2", "-alpha", ".Final", "-ga", ".1", "-1", ".0", "-foo", ".foo", "-SP1-SNAPSHOT", ".SP1-SNAPSHOT", "-cr1", "-m1"}
+				endings := []string{"", "", "-rc1", ".rc1", "-SP1", ".SP1", "-sp", ".sp", "-SNAPSHOT", ".SNAPSHOT", "-beta2", ".beta2", "-alpha", ".Final", "-ga", ".1", "-1", ".0", "-foo", ".foo", "-SP1-SNAPSHOT", ".SP1-SNAPSHOT", "-cr1", "-m1",
+					// one qualifier, the number after it spelled and separated in every way
+					"-rc-1", "-rc.1", "-rc-01", "-rc.01", "-rc01", "-01", ".01", "-beta-1", "-beta.1", "-beta-01"}
+				if strings.Count(prefix, ".") < 3 && rapid.IntRange(0, 3).Draw(t, "zerospelling") == 0 {
+					// a zero component spelled 0 and 00 before one qualifier, and the
+					// version without that component
+					e := rapid.SampledFrom([]string{".alpha", ".beta1", ".rc1", "-rc1", ".Final", ".sp", ".foo", ".1", "-1"}).Draw(t, "zq")
+					third := rapid.SampledFrom([]string{"", e, ".0", "-SNAPSHOT"}).Draw(t, "zthird")
+					perm := rapid.Permutation([]string{prefix + ".0" + e, prefix + ".00" + e, prefix + third}).Draw(t, "zorder")
+					copy(out[:], perm)
+					return out
+				}
 				for k := 0; k < 3; k++ {
-					out[k] = prefix + rapid.SampledFrom(endings).Draw(t, "ending")
+					pfx := prefix
+					// the same numbers with a zero component more, spelled 0 or 00
+					if strings.Count(prefix, ".") < 3 {
+						switch rapid.IntRange(0, 5).Draw(t, "zeropad") {
+						case 0:
+							pfx = prefix + ".0"
+						case 1:
+							pfx = prefix + ".00"
+						}
+					}
+					out[k] = pfx + rapid.SampledFrom(endings).Draw(t, "ending")
 				}
 				return out
 			}
